@@ -348,6 +348,13 @@ class Gen:
             if r.random() < 0.5:
                 d["lower"] = True
             return d
+        if r.random() < 0.4:
+            # the word rides on a move (added after seed C03i: a move refused for its F / S word had already advanced the
+            # tracked position): a short move, so that the phantom position stays near where the machine is
+            ax = [None, None, None]
+            ax[r.randrange(3)] = self.num(2, 18) if not getattr(self, "rel", False) else self.num(-3, 3)
+            return {"call": r.choice(["move", "move", "rapid", "probe"]), "ax": ax, ("S" if name == "tool-power" else "F"): v,
+                    "mode": "towards"}
         if name == "tool-power":
             return {"call": "set_tool_power", "val": v}
         return {"call": "set_feed_rate", "val": v}
@@ -381,6 +388,33 @@ class Gen:
             ax[i] = self.num(-6, 20)
         return {"call": c, "ax": ax}
 
+    def phantom(self):
+        """After a refused call, a call that is only acceptable had the refused one taken effect (added after seed C03i: a move
+        refused for its F word had already advanced the tracked position; the next relative move was then checked against
+        that phantom and took the machine out of the box).  Directed: near the upper wall, a relative step towards the centre
+        refused for its feed, then the same step outwards."""
+        r = self.r
+        out = []
+        if "axes" not in self.bounds:
+            self.bounds["axes"] = (0.0, 20.0)
+            out.append({"call": "set_bounds", "name": "axes", "lo": [0.0, 0.0, 0.0], "hi": [20.0, 20.0, 20.0]})
+        if "feed-rate" not in self.bounds:
+            self.bounds["feed-rate"] = (100.0, 1000.0)
+            out.append({"call": "set_bounds", "name": "feed-rate", "lo": 100.0, "hi": 1000.0})
+        lo, hi = self.bounds["feed-rate"]
+        i = r.randrange(3)
+        near, step = [None, None, None], [None, None, None]
+        near[i] = 18.0
+        step[i] = float(r.choice([8, 10, 12]))
+        back = [None if v is None else -v for v in step]
+        out += [{"call": "set_distance_mode", "mode": "absolute"}, {"call": "move", "ax": near},
+                {"call": "set_distance_mode", "mode": "relative"},
+                {"call": r.choice(["move", "rapid"]), "ax": back, "F": hi + 100.0},       # refused: nothing may change
+                {"call": "move", "ax": step},                                              # 18 + step is outside: refused as well
+                {"call": "set_distance_mode", "mode": "absolute"}]
+        self.rel = False
+        return out
+
     def dance(self):
         """A word set on a move, changed through its own setter, and set back on a move (added after seed C07h): the second
         move must carry the word again -- two records of 'the value in force' (last move parameter / modal state) exist."""
@@ -408,6 +442,9 @@ class Gen:
             return q.pop(0)
         if self.profile in ("mixed", "motion") and self.r.random() < 0.04:
             return self.convert()
+        if self.profile == "bounds" and self.depth == 0 and self.r.random() < 0.02:
+            q.extend(self.phantom())
+            return q.pop(0)
         r = self.r
         p = self.profile
         x = r.random()
